@@ -111,7 +111,7 @@ theorem applyW_append (cp : Nat) (m : List (Nat × Pos N)) (a b : List (Pos N)) 
     applyW cp m (a ++ b) = applyW cp (applyW cp m a) b := by
   simp [applyW, List.foldl_append]
 
-theorem fillInstrs_spec (cp : Nat) (u : N) (hs : List HI) (icu : ICU N)
+theorem fillInstrs_spec (cp : Nat) (u : N) (hs : List HI) (icu : List (List (Nat × Pos N)))
     (hidx : ∀ h ∈ hs, h.idx < icu.length) :
     ∃ icu', fillInstrs cp u hs icu = .ok icu' ∧ icu'.length = icu.length ∧
       ∀ i, icu'[i]? = (icu[i]?).map (fun m => applyW cp m (wOf u hs i)) := by
@@ -135,7 +135,7 @@ theorem fillInstrs_spec (cp : Nat) (u : N) (hs : List HI) (icu : ICU N)
       · have : (h.idx == i) = false := by simpa using hi
         simp [wOf, applyW, hi, this]
 
-theorem fillUnits_spec (cp : Nat) (us : List (N × List HI)) (icu : ICU N)
+theorem fillUnits_spec (cp : Nat) (us : List (N × List HI)) (icu : List (List (Nat × Pos N)))
     (hidx : ∀ p ∈ us, ∀ h ∈ p.2, h.idx < icu.length) :
     ∃ icu', fillUnits cp us icu = .ok icu' ∧ icu'.length = icu.length ∧
       ∀ i, icu'[i]? = (icu[i]?).map (fun m => applyW cp m (writesOf us i)) := by
@@ -157,7 +157,7 @@ theorem fillUnits_spec (cp : Nat) (us : List (N × List HI)) (icu : ICU N)
 theorem wOf_nil (u : N) (i : Nat) : wOf u [] i = [] := rfl
 
 /-- `BagValDict.items()` drops only entries that write nothing -/
-theorem writesOf_items (c : Cycle N) (i : Nat) : writesOf (Bag.items c) i = writesOf c i := by
+theorem writesOf_items (c : List (N × List HI)) (i : Nat) : writesOf (Bag.items c) i = writesOf c i := by
   induction c with
   | nil => rfl
   | cons p c ih =>
@@ -169,9 +169,9 @@ theorem writesOf_items (c : Cycle N) (i : Nat) : writesOf (Bag.items c) i = writ
     | cons h l => simp [writesOf_cons, ih]
 
 /-- position of instruction `i` in a cycle record (the first one written) -/
-def posAt (c : Cycle N) (i : Nat) : Option (Pos N) := (writesOf c i).head?
+def posAt (c : List (N × List HI)) (i : Nat) : Option (Pos N) := (writesOf c i).head?
 
-theorem applyW_of_le_one (cp : Nat) (m : List (Nat × Pos N)) (c : Cycle N) (i : Nat)
+theorem applyW_of_le_one (cp : Nat) (m : List (Nat × Pos N)) (c : List (N × List HI)) (i : Nat)
     (h : (writesOf c i).length ≤ 1) :
     applyW cp m (writesOf c i) = match posAt c i with
       | none => m
@@ -185,26 +185,26 @@ theorem applyW_of_le_one (cp : Nat) (m : List (Nat × Pos N)) (c : Cycle N) (i :
     | cons q qs => rw [hw] at h; simp at h
 
 /-- the dict of instruction `i` built from the cycles `d` numbered from `cp` -/
-def expU (i : Nat) : Nat → List (Cycle N) → List (Nat × Pos N)
+def expU (i : Nat) : Nat → List (List (N × List HI)) → List (Nat × Pos N)
   | _, [] => []
   | cp, c :: cs =>
     match posAt c i with
     | none => expU i (cp + 1) cs
     | some p => (cp, p) :: expU i (cp + 1) cs
 
-theorem fillCycles_spec (d : List (Cycle N)) (cp : Nat) (icu : ICU N)
-    (hidx : ∀ c ∈ d, ∀ p : N × List HI, p ∈ (c : List (N × List HI)) → ∀ h ∈ p.2, h.idx < icu.length)
+theorem fillCycles_spec (d : List (List (N × List HI))) (cp : Nat) (icu : List (List (Nat × Pos N)))
+    (hidx : ∀ c ∈ d, ∀ p ∈ c, ∀ h ∈ p.2, h.idx < icu.length)
     (hone : ∀ c ∈ d, ∀ i, i < icu.length → (writesOf c i).length ≤ 1)
-    (hkeys : ∀ i (m : List (Nat × Pos N)), icu[i]? = some m → ∀ kv ∈ m, kv.1 < cp) :
+    (hkeys : ∀ (i : Nat) (m : List (Nat × Pos N)), icu[i]? = some m → ∀ kv ∈ m, kv.1 < cp) :
     ∃ icu', fillCycles cp d icu = .ok icu' ∧ icu'.length = icu.length ∧
-      ∀ i m, icu[i]? = some m → icu'[i]? = some (m ++ expU i cp d) := by
+      ∀ (i : Nat) (m : List (Nat × Pos N)), icu[i]? = some m → icu'[i]? = some (m ++ expU i cp d) := by
   induction d generalizing cp icu with
   | nil => exact ⟨icu, rfl, rfl, fun i m h => by simp [expU, h]⟩
   | cons c cs ih =>
     obtain ⟨icu1, h1, h2, h3⟩ := fillUnits_spec cp (Bag.items c) icu
       (fun p hp h hh => hidx c (by simp) p (List.mem_filter.1 hp).1 h hh)
     -- what one cycle does to the dict of instruction `i`
-    have hstep : ∀ i m, icu[i]? = some m → icu1[i]? = some (match posAt c i with
+    have hstep : ∀ (i : Nat) (m : List (Nat × Pos N)), icu[i]? = some m → icu1[i]? = some (match posAt c i with
         | none => m
         | some p => m ++ [(cp, p)]) := by
       intro i m hm
@@ -246,7 +246,7 @@ theorem fillCycles_spec (d : List (Cycle N)) (cp : Nat) (icu : ICU N)
 
 /-! ### the expected dict -/
 
-theorem expU_append (i : Nat) (cp : Nat) (x y : List (Cycle N)) :
+theorem expU_append (i : Nat) (cp : Nat) (x y : List (List (N × List HI))) :
     expU i cp (x ++ y) = expU i cp x ++ expU i (cp + x.length) y := by
   induction x generalizing cp with
   | nil => simp [expU]
@@ -255,7 +255,7 @@ theorem expU_append (i : Nat) (cp : Nat) (x y : List (Cycle N)) :
     rw [ih (cp + 1), show cp + 1 + cs.length = cp + (cs.length + 1) by omega]
     cases posAt c i <;> simp
 
-theorem expU_none (i : Nat) (cp : Nat) (x : List (Cycle N)) (h : ∀ c ∈ x, posAt c i = none) :
+theorem expU_none (i : Nat) (cp : Nat) (x : List (List (N × List HI))) (h : ∀ c ∈ x, posAt c i = none) :
     expU i cp x = [] := by
   induction x generalizing cp with
   | nil => rfl
@@ -263,7 +263,7 @@ theorem expU_none (i : Nat) (cp : Nat) (x : List (Cycle N)) (h : ∀ c ∈ x, po
     simp only [expU, h c (by simp)]
     exact ih _ (fun c' hc' => h c' (List.mem_cons_of_mem _ hc'))
 
-theorem keys_expU_all (i : Nat) (cp : Nat) (x : List (Cycle N)) (h : ∀ c ∈ x, (posAt c i).isSome = true) :
+theorem keys_expU_all (i : Nat) (cp : Nat) (x : List (List (N × List HI))) (h : ∀ c ∈ x, (posAt c i).isSome = true) :
     (expU i cp x).map (·.1) = List.range' cp x.length := by
   induction x generalizing cp with
   | nil => rfl
@@ -272,7 +272,7 @@ theorem keys_expU_all (i : Nat) (cp : Nat) (x : List (Cycle N)) (h : ∀ c ∈ x
     simp only [expU, hp, List.map_cons, List.length_cons, List.range'_succ]
     rw [ih _ (fun c' hc' => h c' (List.mem_cons_of_mem _ hc'))]
 
-theorem get?_expU (i : Nat) (cp : Nat) (d : List (Cycle N)) (t : Nat) :
+theorem get?_expU (i : Nat) (cp : Nat) (d : List (List (N × List HI))) (t : Nat) :
     AMap.get? (expU i cp d) t = if t < cp then none else (d[t - cp]?).bind (fun c => posAt c i) := by
   induction d generalizing cp with
   | nil => simp [expU]
@@ -295,6 +295,417 @@ theorem get?_expU (i : Nat) (cp : Nat) (d : List (Cycle N)) (t : Nat) :
         cases hp : posAt c i with
         | none => simp [expU, hp, ih, h1, h2, h4]
         | some p => simp [expU, hp, get?_cons, h5, ih, h1, h2, h4]
+
+/-! ## 4. one flight row -/
+
+theorem foldl_min_eq (a : Nat) (l : List Nat) (h : ∀ x ∈ l, a ≤ x) : l.foldl min a = a := by
+  induction l with
+  | nil => rfl
+  | cons x xs ih =>
+    have : min a x = a := Nat.min_eq_left (h x (by simp))
+    simp only [List.foldl_cons, this]
+    exact ih (fun y hy => h y (List.mem_cons_of_mem _ hy))
+
+theorem minKey_range' (a b : Nat) (hb : 1 ≤ b) : minKey (List.range' a b) = some a := by
+  obtain ⟨b', rfl⟩ : ∃ b', b = b' + 1 := ⟨b - 1, by omega⟩
+  rw [List.range'_succ]
+  simp only [minKey]
+  rw [foldl_min_eq]
+  intro x hx
+  obtain ⟨j, _, rfl⟩ := List.mem_range'.1 hx
+  omega
+
+theorem lookupRange_spec (k : Nat) (U : List (Nat × Pos N)) (s len : Nat)
+    (h : ∀ j, j < len → ∃ p, AMap.get? U (s + j) = some p) :
+    ∃ ps, lookupRange k U s len = .ok ps ∧ ps.length = len ∧ ∀ j, j < len → AMap.get? U (s + j) = ps[j]? := by
+  induction len generalizing s with
+  | zero => exact ⟨[], rfl, rfl, fun j hj => by omega⟩
+  | succ len ih =>
+    obtain ⟨p, hp⟩ := h 0 (by omega)
+    rw [Nat.add_zero] at hp
+    obtain ⟨ps, h1, h2, h3⟩ := ih (s + 1) (fun j hj => by
+      have := h (j + 1) (by omega)
+      rwa [show s + (j + 1) = s + 1 + j by omega] at this)
+    refine ⟨p :: ps, by simp [lookupRange, hp, h1], by simp [h2], fun j hj => ?_⟩
+    cases j with
+    | zero => simpa using hp
+    | succ j =>
+      have := h3 j (by omega)
+      rw [show s + 1 + j = s + (j + 1) by omega] at this
+      simpa using this
+
+/-- a dict with the contiguous keys `a, …, a+b-1` yields the row `"" × a ++ stops`, read off the dict cell by cell -/
+theorem flightRow_spec (sh : N → String) (k : Nat) (U : List (Nat × Pos N)) (a b : Nat) (hb : 1 ≤ b)
+    (hk : U.map (·.1) = List.range' a b) :
+    ∃ r, flightRow sh k U = .ok r ∧ r.length = a + b ∧
+      ∀ t, (r[t]?).getD "" = ((AMap.get? U t).map (Pos.str sh)).getD "" := by
+  have hlen : U.length = b := by simpa using congrArg List.length hk
+  have hin : ∀ t, AMap.get? U t = none ↔ ¬ (a ≤ t ∧ t < a + b) := by
+    intro t
+    rw [get?_eq_none_iff]
+    constructor
+    · intro h ⟨h1, h2⟩
+      have : t ∈ U.map (·.1) := by rw [hk]; exact List.mem_range'.2 ⟨t - a, by omega, by omega⟩
+      obtain ⟨kv, hkv, e⟩ := List.mem_map.1 this
+      exact h kv hkv e
+    · intro h kv hkv e
+      have : kv.1 ∈ List.range' a b := by rw [← hk]; exact List.mem_map.2 ⟨kv, hkv, rfl⟩
+      obtain ⟨j, hj, e'⟩ := List.mem_range'.1 this
+      exact h ⟨by omega, by omega⟩
+  obtain ⟨ps, h1, h2, h3⟩ := lookupRange_spec k U a b (fun j hj => by
+    cases hg : AMap.get? U (a + j) with
+    | some p => exact ⟨p, rfl⟩
+    | none => exact absurd ⟨by omega, by omega⟩ ((hin _).1 hg))
+  have hmin : minKey (AMap.keys U) = some a := by
+    show minKey (U.map (·.1)) = some a
+    rw [hk]; exact minKey_range' a b hb
+  refine ⟨List.replicate a "" ++ ps.map (Pos.str sh), ?_, by simp [h2], fun t => ?_⟩
+  · simp only [flightRow, hmin, hlen, h1]
+  · rw [List.getElem?_append, List.length_replicate]
+    by_cases hta : t < a
+    · have : AMap.get? U t = none := (hin t).2 (by omega)
+      simp [hta, this]
+    · simp only [hta, if_false, List.getElem?_map]
+      by_cases htb : t < a + b
+      · have := h3 (t - a) (by omega)
+        rw [show a + (t - a) = t by omega] at this
+        rw [this]
+      · have hn : AMap.get? U t = none := (hin t).2 (by omega)
+        have : ps[t - a]? = none := List.getElem?_eq_none (by omega)
+        simp [hn, this]
+
+/-! ## 5. what `diagramOK` says per instruction -/
+
+/-- the count used by `diagramOK` -/
+def occN (c : List (N × List HI)) (i : Nat) : Nat :=
+  ((c.map (fun p => p.2.filter (fun h => h.idx == i))).flatten).length
+
+theorem writesOf_length (c : List (N × List HI)) (i : Nat) : (writesOf c i).length = occN c i := by
+  induction c with
+  | nil => rfl
+  | cons p c ih =>
+    unfold occN at ih ⊢
+    simp [writesOf_cons, wOf, ih]
+
+theorem posAt_eq_none_iff (c : List (N × List HI)) (i : Nat) : posAt c i = none ↔ occN c i = 0 := by
+  unfold posAt
+  rw [List.head?_eq_none_iff, ← writesOf_length, List.length_eq_zero_iff]
+
+theorem posAt_isSome_iff (c : List (N × List HI)) (i : Nat) : (posAt c i).isSome = true ↔ 1 ≤ occN c i := by
+  have := posAt_eq_none_iff c i
+  cases h : posAt c i with
+  | none => simp [(this.1 h)]
+  | some p =>
+    have : occN c i ≠ 0 := fun e => by rw [this.2 e] at h; cases h
+    simp; omega
+
+theorem all_takeWhile {α : Type} (p : α → Bool) (l : List α) : ∀ x ∈ l.takeWhile p, p x = true := by
+  induction l with
+  | nil => simp
+  | cons a l ih =>
+    intro x hx
+    rw [List.takeWhile_cons] at hx
+    split at hx
+    · rcases List.mem_cons.1 hx with h | h
+      · subst h; assumption
+      · exact ih x h
+    · simp at hx
+
+/-- readable form of `diagramOK` -/
+structure DiagOK (d : List (List (N × List HI))) (n : Nat) : Prop where
+  idx : ∀ c ∈ d, ∀ p ∈ c, ∀ h ∈ p.2, h.idx < n
+  one : ∀ c ∈ d, ∀ i, i < n → occN c i ≤ 1
+  split : ∀ i, i < n → ∃ A B C : List (List (N × List HI)), d = A ++ B ++ C ∧ B ≠ [] ∧
+    (∀ c ∈ A, occN c i = 0) ∧ (∀ c ∈ B, occN c i = 1) ∧ (∀ c ∈ C, occN c i = 0)
+
+theorem diagOK_of (d : List (List (N × List HI))) (n : Nat) (h : diagramOK d n = true) : DiagOK d n := by
+  unfold diagramOK at h
+  simp only [Bool.and_eq_true, List.all_eq_true, List.mem_range, decide_eq_true_eq] at h
+  obtain ⟨h1, h2⟩ := h
+  refine ⟨fun c hc p hp x hx => h1 c hc p hp x hx, ?_, ?_⟩
+  · intro c hc i hi
+    obtain ⟨⟨ha, _⟩, _⟩ := h2 i hi
+    exact ha (occN c i) (List.mem_map.2 ⟨c, hc, rfl⟩)
+  · intro i hi
+    obtain ⟨⟨ha, hb⟩, hc⟩ := h2 i hi
+    have hle : ∀ c ∈ d, occN c i ≤ 1 := fun c hc => ha (occN c i) (List.mem_map.2 ⟨c, hc, rfl⟩)
+    let f : List (N × List HI) → Nat := fun c => occN c i
+    replace hc : ∀ x ∈ ((d.map f).dropWhile (· == 0)).dropWhile (· == 1), (x == 0) = true := hc
+    replace hb : (d.map f).any (· == 1) = true := hb
+    rw [List.dropWhile_map, List.dropWhile_map] at hc
+    refine ⟨d.takeWhile ((· == 0) ∘ f), (d.dropWhile ((· == 0) ∘ f)).takeWhile ((· == 1) ∘ f),
+      (d.dropWhile ((· == 0) ∘ f)).dropWhile ((· == 1) ∘ f), ?_, ?_, ?_, ?_, ?_⟩
+    · rw [List.append_assoc, List.takeWhile_append_dropWhile, List.takeWhile_append_dropWhile]
+    · -- some cycle has count 1; it is neither in the leading nor in the trailing block
+      obtain ⟨x, hx, hx1⟩ := List.any_eq_true.1 hb
+      obtain ⟨c, hcd, rfl⟩ := List.mem_map.1 hx
+      have hx1' : f c = 1 := by simpa using hx1
+      intro hB
+      have hd : d = d.takeWhile ((· == 0) ∘ f) ++ ((d.dropWhile ((· == 0) ∘ f)).takeWhile ((· == 1) ∘ f) ++
+          (d.dropWhile ((· == 0) ∘ f)).dropWhile ((· == 1) ∘ f)) := by
+        rw [List.takeWhile_append_dropWhile, List.takeWhile_append_dropWhile]
+      rw [hB, List.nil_append] at hd
+      rw [hd] at hcd
+      rcases List.mem_append.1 hcd with hm | hm
+      · have := all_takeWhile _ _ c hm
+        simp [hx1'] at this
+      · have := hc (f c) (List.mem_map.2 ⟨c, hm, rfl⟩)
+        simp [hx1'] at this
+    · intro c hm
+      have := all_takeWhile _ _ c hm
+      simpa using this
+    · intro c hm
+      have := all_takeWhile _ _ c hm
+      simpa using this
+    · intro c hm
+      have := hc (f c) (List.mem_map.2 ⟨c, hm, rfl⟩)
+      simpa using this
+
+/-- per instruction: the dict built by `_cui_to_icu` has contiguous keys, and reads the diagram -/
+theorem expU_shape (d : List (List (N × List HI))) (n i : Nat) (hd : DiagOK d n) (hi : i < n) :
+    ∃ a b, 1 ≤ b ∧ (expU i 0 d).map (·.1) = List.range' a b ∧
+      ∀ t, AMap.get? (expU i 0 d) t = (d[t]?).bind (fun c => posAt c i) := by
+  obtain ⟨A, B, C, rfl, hB, hA0, hB1, hC0⟩ := hd.split i hi
+  refine ⟨A.length, B.length, ?_, ?_, fun t => by simpa using get?_expU i 0 (A ++ B ++ C) t⟩
+  · cases B with
+    | nil => exact absurd rfl hB
+    | cons _ _ => simp
+  · rw [expU_append, expU_append, expU_none i _ A (fun c hc => (posAt_eq_none_iff c i).2 (hA0 c hc)),
+      expU_none i _ C (fun c hc => (posAt_eq_none_iff c i).2 (hC0 c hc))]
+    simp only [List.nil_append, List.append_nil, Nat.zero_add]
+    exact keys_expU_all i _ B (fun c hc => (posAt_isSome_iff c i).2 (by rw [hB1 c hc]; exact Nat.le_refl 1))
+
+/-! ## 6. `posAt` versus `Hosted`; the printed strings -/
+
+theorem mem_writesOf (c : List (N × List HI)) (i : Nat) (p : Pos N) :
+    p ∈ writesOf c i ↔ ∃ e ∈ c, ∃ h ∈ e.2, h.idx = i ∧ p = { unit := e.1, st := h.st } := by
+  unfold writesOf wOf
+  simp only [List.mem_flatMap, List.mem_map, List.mem_filter, beq_iff_eq]
+  constructor
+  · rintro ⟨e, he, h, ⟨hh, hi⟩, rfl⟩
+    exact ⟨e, he, h, hh, hi, rfl⟩
+  · rintro ⟨e, he, h, hh, hi, rfl⟩
+    exact ⟨e, he, h, ⟨hh, hi⟩, rfl⟩
+
+theorem bag_get_of_mem (c : List (N × List HI)) (u : N) (l : List HI) (hn : (AMap.keys c).Nodup) (h : (u, l) ∈ c) :
+    Bag.get c u = l := by
+  simp [Bag.get, get?_of_mem c u l hn h]
+
+theorem mem_of_bag_get (c : List (N × List HI)) (u : N) (x : HI) (h : x ∈ Bag.get c u) : (u, Bag.get c u) ∈ c := by
+  unfold Bag.get at h ⊢
+  cases hg : AMap.get? c u with
+  | none => rw [hg] at h; simp at h
+  | some l => simpa using mem_of_get? c u l hg
+
+theorem posAt_eq_some_iff (c : List (N × List HI)) (i : Nat) (u : N) (L : Stall) (hn : (AMap.keys c).Nodup)
+    (hone : occN c i ≤ 1) :
+    posAt c i = some { unit := u, st := L } ↔ ({ idx := i, st := L } : HI) ∈ Bag.get c u := by
+  constructor
+  · intro h
+    have hm : ({ unit := u, st := L } : Pos N) ∈ writesOf c i := List.mem_of_mem_head? (by unfold posAt at h; simp [h])
+    obtain ⟨e, he, x, hx, hxi, hp⟩ := (mem_writesOf c i _).1 hm
+    obtain ⟨eu, el⟩ := e
+    simp only [Pos.mk.injEq] at hp
+    obtain ⟨rfl, rfl⟩ := hp
+    rw [bag_get_of_mem c u el hn he]
+    have : x = { idx := i, st := x.st } := by cases x; simp_all
+    rw [← this]; exact hx
+  · intro h
+    have hm : ({ unit := u, st := L } : Pos N) ∈ writesOf c i :=
+      (mem_writesOf c i _).2 ⟨(u, Bag.get c u), mem_of_bag_get c u _ h, _, h, rfl, rfl⟩
+    rw [← writesOf_length] at hone
+    unfold posAt
+    cases hw : writesOf c i with
+    | nil => rw [hw] at hm; simp at hm
+    | cons p ps =>
+      cases ps with
+      | nil => rw [hw] at hm; simp at hm; simp [hm]
+      | cons q qs => rw [hw] at hone; simp at hone
+
+theorem posAt_eq_none_iff_hosted (c : List (N × List HI)) (i : Nat) (hn : (AMap.keys c).Nodup) :
+    posAt c i = none ↔ ∀ (L : Stall) (u : N), ({ idx := i, st := L } : HI) ∉ Bag.get c u := by
+  unfold posAt
+  rw [List.head?_eq_none_iff]
+  constructor
+  · intro h L u hm
+    have : ({ unit := u, st := L } : Pos N) ∈ writesOf c i :=
+      (mem_writesOf c i _).2 ⟨(u, Bag.get c u), mem_of_bag_get c u _ hm, _, hm, rfl, rfl⟩
+    rw [h] at this; simp at this
+  · intro h
+    cases hw : writesOf c i with
+    | nil => rfl
+    | cons p ps =>
+      have hm : p ∈ writesOf c i := by rw [hw]; simp
+      obtain ⟨e, he, x, hx, hxi, hp⟩ := (mem_writesOf c i _).1 hm
+      obtain ⟨eu, el⟩ := e
+      exfalso
+      apply h x.st eu
+      rw [bag_get_of_mem c eu el hn he]
+      have : x = { idx := i, st := x.st } := by cases x; simp_all
+      rw [← this]; exact hx
+
+theorem code_toList (L : Stall) : L.code.toList = [match L with | .U => 'U' | .S => 'S' | .D => 'D'] := by
+  cases L <;> decide
+
+theorem str_toList (sh : N → String) (L : Stall) (u : N) :
+    (L.code ++ ":" ++ sh u).toList = (match L with | .U => 'U' | .S => 'S' | .D => 'D') :: ':' :: (sh u).toList := by
+  have : ":".toList = [':'] := by decide
+  simp [String.toList_append, code_toList, this]
+
+theorem str_ne_empty (sh : N → String) (L : Stall) (u : N) : L.code ++ ":" ++ sh u ≠ "" := by
+  intro h
+  have := congrArg String.toList h
+  rw [str_toList] at this
+  simp at this
+
+theorem str_inj (sh : N → String) (hsh : Function.Injective sh) (L L' : Stall) (u u' : N)
+    (h : L.code ++ ":" ++ sh u = L'.code ++ ":" ++ sh u') : L = L' ∧ u = u' := by
+  have := congrArg String.toList h
+  rw [str_toList, str_toList] at this
+  simp only [List.cons.injEq, true_and] at this
+  obtain ⟨h1, h2⟩ := this
+  refine ⟨?_, hsh (String.toList_inj.1 h2)⟩
+  cases L <;> cases L' <;> first | rfl | (exfalso; revert h1; decide)
+
+theorem posStr (sh : N → String) (p : Pos N) : Pos.str sh p = p.st.code ++ ":" ++ sh p.unit := rfl
+
+/-! ## 7. `lastBusy`, `lastTick` -/
+
+theorem lastBusy_le_iff (d : List (List (N × List HI))) (T : Nat) :
+    lastBusy d ≤ T ↔ ∀ t c, T ≤ t → d[t]? = some c → (Bag.items c).isEmpty = true := by
+  induction d generalizing T with
+  | nil => simp [lastBusy]
+  | cons c cs ih =>
+    simp only [lastBusy]
+    by_cases hr : lastBusy cs > 0
+    · simp only [hr, if_true]
+      cases T with
+      | zero =>
+        constructor
+        · intro h; omega
+        · intro h
+          exfalso
+          have : lastBusy cs ≤ 0 := (ih 0).2 (fun t c' _ hc' => h (t + 1) c' (Nat.zero_le _) (by simpa using hc'))
+          omega
+      | succ T =>
+        rw [Nat.add_le_add_iff_right, ih T]
+        constructor
+        · intro h t c' ht hc'
+          cases t with
+          | zero => omega
+          | succ t => exact h t c' (by omega) (by simpa using hc')
+        · intro h t c' ht hc'
+          exact h (t + 1) c' (by omega) (by simpa using hc')
+    · have hr0 : lastBusy cs ≤ 0 := by omega
+      have hidle := (ih 0).1 hr0
+      simp only [hr, if_false]
+      constructor
+      · intro h t c' ht hc'
+        cases t with
+        | zero =>
+          simp at hc'; subst hc'
+          cases hce : (Bag.items c).isEmpty with
+          | true => rfl
+          | false => simp [hce] at h; omega
+        | succ t => exact hidle t c' (Nat.zero_le _) (by simpa using hc')
+      · intro h
+        cases T with
+        | zero =>
+          have := h 0 c (Nat.le_refl _) (by simp)
+          simp [this]
+        | succ T => split <;> omega
+
+theorem lastTick_le_iff (rows : List (List String)) (T : Nat) :
+    lastTick rows ≤ T ↔ ∀ r ∈ rows, r.length ≤ T := by
+  induction rows with
+  | nil => simp [lastTick]
+  | cons r rs ih => simp [lastTick, Nat.max_le, ih]
+
+theorem eq_of_le_iff (a b : Nat) (h : ∀ T, a ≤ T ↔ b ≤ T) : a = b :=
+  Nat.le_antisymm ((h b).2 (Nat.le_refl _)) ((h a).1 (Nat.le_refl _))
+
+/-- a cycle is idle iff no instruction `< n` has a position in it (when only instructions `< n` occur) -/
+theorem items_isEmpty_iff (c : List (N × List HI)) (n : Nat) (hidx : ∀ p ∈ c, ∀ h ∈ p.2, h.idx < n) :
+    (Bag.items c).isEmpty = true ↔ ∀ i, i < n → posAt c i = none := by
+  rw [List.isEmpty_iff]
+  unfold Bag.items
+  rw [List.filter_eq_nil_iff]
+  constructor
+  · intro h i _
+    unfold posAt
+    rw [List.head?_eq_none_iff]
+    cases hw : writesOf c i with
+    | nil => rfl
+    | cons p ps =>
+      exfalso
+      have hm : p ∈ writesOf c i := by rw [hw]; simp
+      obtain ⟨e, he, x, hx, _, _⟩ := (mem_writesOf c i _).1 hm
+      have := h e he
+      cases hl : e.2 with
+      | nil => rw [hl] at hx; simp at hx
+      | cons _ _ => simp [hl] at this
+  · intro h e he
+    cases hl : e.2 with
+    | nil => simp
+    | cons x xs =>
+      exfalso
+      have hx : x ∈ e.2 := by rw [hl]; simp
+      have hn := h x.idx (hidx e he x hx)
+      unfold posAt at hn
+      rw [List.head?_eq_none_iff] at hn
+      have : ({ unit := e.1, st := x.st } : Pos N) ∈ writesOf c x.idx :=
+        (mem_writesOf c _ _).2 ⟨e, he, x, hx, rfl, rfl⟩
+      rw [hn] at this; simp at this
+
+/-! ## 8. rows, keys, table -/
+
+theorem flightRows_spec (sh : N → String) (icu : List (List (Nat × Pos N))) (k : Nat)
+    (P : Nat → List String → Prop)
+    (h : ∀ (j : Nat) (U : List (Nat × Pos N)), icu[j]? = some U → ∃ r, flightRow sh (k + j) U = .ok r ∧ P (k + j) r) :
+    ∃ rows, flightRows sh k icu = .ok rows ∧ rows.length = icu.length ∧
+      ∀ (j : Nat) (r : List String), rows[j]? = some r → P (k + j) r := by
+  induction icu generalizing k with
+  | nil => exact ⟨[], rfl, rfl, fun j r hr => by simp at hr⟩
+  | cons U us ih =>
+    obtain ⟨r, h1, h2⟩ := h 0 U (by simp)
+    obtain ⟨rs, g1, g2, g3⟩ := ih (k + 1) (fun j U' hU' => by
+      have := h (j + 1) U' (by simpa using hU')
+      rwa [show k + (j + 1) = k + 1 + j by omega] at this)
+    rw [Nat.add_zero] at h1 h2
+    refine ⟨r :: rs, by simp [flightRows, h1, g1], by simp [g2], fun j r' hr' => ?_⟩
+    cases j with
+    | zero => simp at hr'; subst hr'; exact h2
+    | succ j =>
+      have := g3 j r' (by simpa using hr')
+      rwa [show k + 1 + j = k + (j + 1) by omega] at this
+
+theorem keyRows_length (k : Nat) (rows : List (List String)) : (keyRows k rows).length = rows.length := by
+  induction rows generalizing k with
+  | nil => rfl
+  | cons r rs ih => simp [keyRows, ih]
+
+theorem keyRows_getElem? (k : Nat) (rows : List (List String)) (j : Nat) :
+    (keyRows k rows)[j]? = (rows[j]?).map (fun r => ("I" ++ toString (k + j)) :: r) := by
+  induction rows generalizing k j with
+  | nil => simp [keyRows]
+  | cons r rs ih =>
+    cases j with
+    | zero => simp [keyRows]
+    | succ j =>
+      simp only [keyRows, List.getElem?_cons_succ, ih]
+      rw [show k + 1 + j = k + (j + 1) by omega]
+
+theorem cell_table_key (rows : List (List String)) (j : Nat) (hj : j < rows.length) :
+    cell (table rows) (j + 1) 0 = "I" ++ toString (j + 1) := by
+  unfold cell table
+  rw [List.getElem?_cons_succ, keyRows_getElem?, List.getElem?_eq_getElem hj]
+  simp only [Option.map_some, Option.bind_some, List.getElem?_cons_zero, Option.getD_some, Nat.add_comm 1 j]
+
+theorem cell_table (rows : List (List String)) (j t : Nat) :
+    cell (table rows) (j + 1) (t + 1) = (((rows[j]?).bind (·[t]?))).getD "" := by
+  unfold cell table
+  rw [List.getElem?_cons_succ, keyRows_getElem?]
+  cases rows[j]? <;> simp
 
 end CliLemmas
 end ProcSim
